@@ -176,4 +176,1208 @@ theorem walkClasses_error_iff {n : Nat} {r : Inv} {loc : Option (List Str)} {l s
   | error e => simp [eraseTrace]
   | ok x => obtain ⟨s, ro, tr⟩ := x; simp [eraseTrace]
 
+/-! ## The instrumented walk is sound for the big-step relation `Walk` -/
+
+theorem walkT_sound_both : ∀ n : Nat,
+    (∀ r self seen root seen' root' tr, renderImplT n r self seen root = .ok (seen', root', tr) →
+      ∃ root1, Walk r self.loc self.classes.items seen root seen' root1 tr ∧ mergeInto self root1 = .ok root') ∧
+    (∀ r loc l seen root seen' root' tr, walkClassesT n r loc l seen root = .ok (seen', root', tr) →
+      Walk r loc l seen root seen' root' tr) := by
+  intro n
+  induction n with
+  | zero => refine ⟨?_, ?_⟩ <;> intros <;> simp_all [renderImplT, walkClassesT]
+  | succ n ih =>
+    obtain ⟨ihR, ihW⟩ := ih
+    refine ⟨?_, ?_⟩
+    · intro r self seen root seen' root' tr h
+      rw [renderImplT_succ] at h
+      cases h1 : walkClassesT n r self.loc self.classes.items seen root with
+      | error e => simp [h1] at h
+      | ok x =>
+        obtain ⟨s, root1, tr1⟩ := x
+        simp only [h1] at h
+        cases h2 : mergeInto self root1 with
+        | error e => simp [h2] at h
+        | ok root2 =>
+          simp only [h2, Except.ok.injEq, Prod.mk.injEq] at h
+          obtain ⟨rfl, rfl, rfl⟩ := h
+          exact ⟨root1, ihW _ _ _ _ _ _ _ _ h1, h2⟩
+    · intro r loc l seen root seen' root' tr h
+      cases l with
+      | nil =>
+        rw [walkClassesT_nil] at h
+        simp only [Except.ok.injEq, Prod.mk.injEq] at h
+        obtain ⟨rfl, rfl, rfl⟩ := h
+        exact Walk.nil ..
+      | cons cls rest =>
+        rw [walkClassesT_cons] at h
+        cases h1 : resolveClassName defaultFuel root.params cls with
+        | error e => simp [h1] at h
+        | ok c =>
+          simp only [h1] at h
+          by_cases hs : c ∈ seen
+          · simp only [hs, if_true] at h
+            exact Walk.seen h1 hs (ihW _ _ _ _ _ _ _ _ h)
+          · simp only [hs, if_false] at h
+            cases h2 : readClass r loc c with
+            | error e => simp [h2] at h
+            | ok o =>
+              cases o with
+              | none =>
+                simp only [h2] at h
+                exact Walk.ignored h1 hs h2 (ihW _ _ _ _ _ _ _ _ h)
+              | some cn =>
+                simp only [h2] at h
+                cases h3 : renderImplT n r cn (seen ++ [c]) root with
+                | error e => simp [h3] at h
+                | ok x =>
+                  obtain ⟨s1, root1, tr1⟩ := x
+                  simp only [h3] at h
+                  cases h4 : walkClassesT n r loc rest s1 root1 with
+                  | error e => simp [h4] at h
+                  | ok y =>
+                    obtain ⟨s2, root2, tr2⟩ := y
+                    simp only [h4, Except.ok.injEq, Prod.mk.injEq] at h
+                    obtain ⟨rfl, rfl, rfl⟩ := h
+                    obtain ⟨root0, hw, hm⟩ := ihR _ _ _ _ _ _ _ h3
+                    exact Walk.load h1 hs h2 hw hm (ihW _ _ _ _ _ _ _ _ h4)
+
+theorem walkClassesT_sound {n : Nat} {r : Inv} {loc : Option (List Str)} {l seen : List Str} {root : NodeM}
+    {seen' : List Str} {root' : NodeM} {tr : List TraceEntry}
+    (h : walkClassesT n r loc l seen root = .ok (seen', root', tr)) :
+    Walk r loc l seen root seen' root' tr :=
+  (walkT_sound_both n).2 _ _ _ _ _ _ _ _ h
+
+theorem renderImplT_sound {n : Nat} {r : Inv} {self : NodeM} {seen : List Str} {root : NodeM}
+    {seen' : List Str} {root' : NodeM} {tr : List TraceEntry}
+    (h : renderImplT n r self seen root = .ok (seen', root', tr)) :
+    ∃ root1, Walk r self.loc self.classes.items seen root seen' root1 tr ∧ mergeInto self root1 = .ok root' :=
+  (walkT_sound_both n).1 _ _ _ _ _ _ _ h
+
+/-! ## Fuel monotonicity -/
+
+theorem walkT_mono_both : ∀ n : Nat,
+    (∀ r self seen root res, renderImplT n r self seen root = res → res ≠ .error .fuel →
+      renderImplT (n+1) r self seen root = res) ∧
+    (∀ r loc l seen root res, walkClassesT n r loc l seen root = res → res ≠ .error .fuel →
+      walkClassesT (n+1) r loc l seen root = res) := by
+  intro n
+  induction n with
+  | zero => refine ⟨?_, ?_⟩ <;> intros <;> simp_all [renderImplT, walkClassesT]
+  | succ n ih =>
+    obtain ⟨ihR, ihW⟩ := ih
+    refine ⟨?_, ?_⟩
+    · intro r self seen root res h hne
+      rw [renderImplT_succ] at h ⊢
+      cases h1 : walkClassesT n r self.loc self.classes.items seen root with
+      | error e =>
+        simp only [h1] at h
+        have : e ≠ .fuel := by intro he; subst he; exact hne h.symm
+        rw [ihW _ _ _ _ _ _ h1 (by simpa using this)]
+        exact h
+      | ok x =>
+        rw [ihW _ _ _ _ _ _ h1 (by simp)]
+        simp only [h1] at h
+        exact h
+    · intro r loc l seen root res h hne
+      cases l with
+      | nil => rw [walkClassesT_nil] at h ⊢; exact h
+      | cons cls rest =>
+        rw [walkClassesT_cons] at h ⊢
+        cases h1 : resolveClassName defaultFuel root.params cls with
+        | error e => simp only [h1] at h ⊢; exact h
+        | ok c =>
+          simp only [h1] at h ⊢
+          by_cases hs : c ∈ seen
+          · simp only [hs, if_true] at h ⊢
+            exact ihW _ _ _ _ _ _ h hne
+          · simp only [hs, if_false] at h ⊢
+            cases h2 : readClass r loc c with
+            | error e => simp only [h2] at h ⊢; exact h
+            | ok o =>
+              cases o with
+              | none =>
+                simp only [h2] at h ⊢
+                exact ihW _ _ _ _ _ _ h hne
+              | some cn =>
+                simp only [h2] at h ⊢
+                cases h3 : renderImplT n r cn (seen ++ [c]) root with
+                | error e =>
+                  simp only [h3] at h
+                  have : e ≠ .fuel := by intro he; subst he; exact hne h.symm
+                  rw [ihR _ _ _ _ _ h3 (by simpa using this)]
+                  exact h
+                | ok x =>
+                  obtain ⟨s1, root1, tr1⟩ := x
+                  rw [ihR _ _ _ _ _ h3 (by simp)]
+                  simp only [h3] at h ⊢
+                  cases h4 : walkClassesT n r loc rest s1 root1 with
+                  | error e =>
+                    simp only [h4] at h
+                    have : e ≠ .fuel := by intro he; subst he; exact hne h.symm
+                    rw [ihW _ _ _ _ _ _ h4 (by simpa using this)]
+                    exact h
+                  | ok y =>
+                    rw [ihW _ _ _ _ _ _ h4 (by simp)]
+                    simp only [h4] at h
+                    exact h
+
+theorem renderImplT_mono_le {n m : Nat} (hle : n ≤ m) {r : Inv} {self : NodeM} {seen : List Str} {root : NodeM}
+    {res : R (List Str × NodeM × List TraceEntry)}
+    (h : renderImplT n r self seen root = res) (hne : res ≠ .error .fuel) :
+    renderImplT m r self seen root = res := by
+  induction hle with
+  | refl => exact h
+  | step _ ih => exact (walkT_mono_both _).1 _ _ _ _ _ ih hne
+
+theorem walkClassesT_mono_le {n m : Nat} (hle : n ≤ m) {r : Inv} {loc : Option (List Str)} {l seen : List Str}
+    {root : NodeM} {res : R (List Str × NodeM × List TraceEntry)}
+    (h : walkClassesT n r loc l seen root = res) (hne : res ≠ .error .fuel) :
+    walkClassesT m r loc l seen root = res := by
+  induction hle with
+  | refl => exact h
+  | step _ ih => exact (walkT_mono_both _).2 _ _ _ _ _ _ ih hne
+
+theorem eraseTrace_eq_fuel {x : R (List Str × NodeM × List TraceEntry)} :
+    eraseTrace x = .error .fuel ↔ x = .error .fuel := by
+  cases x with
+  | error e => simp [eraseTrace]
+  | ok y => obtain ⟨a, b, c⟩ := y; simp [eraseTrace]
+
+/-- More fuel, same answer (model version). -/
+theorem renderImpl_mono_le {n m : Nat} (hle : n ≤ m) {r : Inv} {self : NodeM} {seen : List Str} {root : NodeM}
+    {res : R (List Str × NodeM)}
+    (h : renderImpl n r self seen root = res) (hne : res ≠ .error .fuel) :
+    renderImpl m r self seen root = res := by
+  rw [← renderImplT_erase] at h ⊢
+  have hne' : renderImplT n r self seen root ≠ .error .fuel := by
+    intro hc; rw [hc] at h; exact hne (by rw [← h]; rfl)
+  rw [renderImplT_mono_le hle rfl hne']; exact h
+
+theorem walkClasses_mono_le {n m : Nat} (hle : n ≤ m) {r : Inv} {loc : Option (List Str)} {l seen : List Str}
+    {root : NodeM} {res : R (List Str × NodeM)}
+    (h : walkClasses n r loc l seen root = res) (hne : res ≠ .error .fuel) :
+    walkClasses m r loc l seen root = res := by
+  rw [← walkClassesT_erase] at h ⊢
+  have hne' : walkClassesT n r loc l seen root ≠ .error .fuel := by
+    intro hc; rw [hc] at h; exact hne (by rw [← h]; rfl)
+  rw [walkClassesT_mono_le hle rfl hne']; exact h
+
+/-! ## Completeness: every `Walk` derivation is a run of the instrumented walk -/
+
+theorem Walk.complete {r : Inv} {loc : Option (List Str)} {l seen : List Str} {root : NodeM}
+    {seen' : List Str} {root' : NodeM} {tr : List TraceEntry}
+    (h : Walk r loc l seen root seen' root' tr) :
+    ∃ n, walkClassesT n r loc l seen root = .ok (seen', root', tr) := by
+  induction h with
+  | nil loc seen root => exact ⟨1, walkClassesT_nil ..⟩
+  | seen h1 hs _ ih =>
+    obtain ⟨n, hn⟩ := ih
+    refine ⟨n+1, ?_⟩
+    rw [walkClassesT_cons]; simp only [h1, hs, if_true]; exact hn
+  | ignored h1 hs h2 _ ih =>
+    obtain ⟨n, hn⟩ := ih
+    refine ⟨n+1, ?_⟩
+    rw [walkClassesT_cons]; simp only [h1, hs, if_false, h2]; exact hn
+  | @load loc cls rest seen root c cn seen1 root1 tr1 root2 seen' root' tr2 h1 hs h2 _ hm _ ih1 ih2 =>
+    obtain ⟨n1, hn1⟩ := ih1
+    obtain ⟨n2, hn2⟩ := ih2
+    refine ⟨max (n1+1) n2 + 1, ?_⟩
+    rw [walkClassesT_cons]; simp only [h1, hs, if_false, h2]
+    have hr : renderImplT (n1+1) r cn (seen ++ [c]) root = .ok (seen1, root2, tr1) := by
+      rw [renderImplT_succ]; simp only [hn1, hm]
+    rw [renderImplT_mono_le (Nat.le_max_left _ _) hr (by simp)]
+    simp only []
+    rw [walkClassesT_mono_le (Nat.le_max_right _ _) hn2 (by simp)]
+
+/-! ## `Walk` is a function of its inputs -/
+
+theorem Walk.det {r : Inv} {loc : Option (List Str)} {l seen : List Str} {root : NodeM}
+    {s1 s2 : List Str} {r1 r2 : NodeM} {t1 t2 : List TraceEntry}
+    (h1 : Walk r loc l seen root s1 r1 t1) (h2 : Walk r loc l seen root s2 r2 t2) :
+    s1 = s2 ∧ r1 = r2 ∧ t1 = t2 := by
+  obtain ⟨n1, e1⟩ := h1.complete
+  obtain ⟨n2, e2⟩ := h2.complete
+  have a := walkClassesT_mono_le (Nat.le_max_left n1 n2) e1 (by simp)
+  have b := walkClassesT_mono_le (Nat.le_max_right n1 n2) e2 (by simp)
+  rw [a] at b
+  simp only [Except.ok.injEq, Prod.mk.injEq] at b
+  exact b
+
+/-! ## What a walk does to `seen` -/
+
+/-- `seen` only grows, by appending; what is appended is a permutation of the traced names
+(`seen` records classes when they are entered, the trace when they are merged). -/
+theorem Walk.seen_ext {r : Inv} {loc : Option (List Str)} {l seen : List Str} {root : NodeM}
+    {seen' : List Str} {root' : NodeM} {tr : List TraceEntry}
+    (h : Walk r loc l seen root seen' root' tr) :
+    ∃ ext, seen' = seen ++ ext ∧ ext.Perm (tr.map Prod.fst) := by
+  induction h with
+  | nil => exact ⟨[], by simp, by simp⟩
+  | seen _ _ _ ih => exact ih
+  | ignored _ _ _ _ ih => exact ih
+  | @load loc cls rest seen root c cn seen1 root1 tr1 root2 seen' root' tr2 _ _ _ _ _ _ ih1 ih2 =>
+    obtain ⟨e1, he1, hp1⟩ := ih1
+    obtain ⟨e2, he2, hp2⟩ := ih2
+    refine ⟨c :: (e1 ++ e2), ?_, ?_⟩
+    · rw [he2, he1]; simp
+    · simp only [List.map_append, List.map_cons]
+      exact ((hp1.append hp2).cons c).trans List.perm_middle.symm
+
+theorem Walk.seen_subset {r : Inv} {loc : Option (List Str)} {l seen : List Str} {root : NodeM}
+    {seen' : List Str} {root' : NodeM} {tr : List TraceEntry}
+    (h : Walk r loc l seen root seen' root' tr) : seen ⊆ seen' := by
+  obtain ⟨ext, he, _⟩ := h.seen_ext
+  intro x hx; rw [he]; exact List.mem_append_left _ hx
+
+/-- A duplicate-free `seen` stays duplicate-free: a name is appended only when it is new. -/
+theorem Walk.seen_nodup {r : Inv} {loc : Option (List Str)} {l seen : List Str} {root : NodeM}
+    {seen' : List Str} {root' : NodeM} {tr : List TraceEntry}
+    (h : Walk r loc l seen root seen' root' tr) (hn : seen.Nodup) : seen'.Nodup := by
+  induction h with
+  | nil => exact hn
+  | seen _ _ _ ih => exact ih hn
+  | ignored _ _ _ _ ih => exact ih hn
+  | load _ hs _ _ _ _ ih1 ih2 => exact ih2 (ih1 (nodup_append_singleton hn hs))
+
+/-- Traced names are new: none of them was in `seen` before, and they are pairwise distinct. -/
+theorem Walk.trace_nodup {r : Inv} {loc : Option (List Str)} {l seen : List Str} {root : NodeM}
+    {seen' : List Str} {root' : NodeM} {tr : List TraceEntry}
+    (h : Walk r loc l seen root seen' root' tr) (hn : seen.Nodup) :
+    (tr.map Prod.fst).Nodup ∧ ∀ x ∈ tr.map Prod.fst, x ∉ seen := by
+  obtain ⟨ext, he, hp⟩ := h.seen_ext
+  have hn' := h.seen_nodup hn
+  rw [he] at hn'
+  have hd := List.nodup_append.1 hn'
+  refine ⟨hp.nodup_iff.1 hd.2.1, ?_⟩
+  intro x hx hxs
+  exact hd.2.2 x hxs x (hp.mem_iff.2 hx) rfl
+
+/-! ## What a walk does to `root`: it merges the traced classes in trace order -/
+
+theorem mergeSeq_append (root : NodeM) (a b : List NodeM) :
+    mergeSeq root (a ++ b) =
+      match mergeSeq root a with
+      | .error e => .error e
+      | .ok root1 => mergeSeq root1 b := by
+  induction a generalizing root with
+  | nil => simp [mergeSeq]
+  | cons x xs ih =>
+    simp only [List.cons_append, mergeSeq]
+    cases mergeInto x root with
+    | error e => simp
+    | ok r1 => simp only []; exact ih r1
+
+theorem Walk.mergeSeq_eq {r : Inv} {loc : Option (List Str)} {l seen : List Str} {root : NodeM}
+    {seen' : List Str} {root' : NodeM} {tr : List TraceEntry}
+    (h : Walk r loc l seen root seen' root' tr) :
+    mergeSeq root (tr.map Prod.snd) = .ok root' := by
+  induction h with
+  | nil => simp [mergeSeq]
+  | seen _ _ _ ih => exact ih
+  | ignored _ _ _ _ ih => exact ih
+  | load _ _ _ _ hm _ ih1 ih2 =>
+    simp only [List.map_append, List.map_cons]
+    rw [mergeSeq_append, ih1]
+    simp only [mergeSeq, hm]
+    exact ih2
+
+theorem mergeInto_ok {self other root' : NodeM} (h : mergeInto self other = .ok root') :
+    other.params.merge self.params = .ok root'.params ∧
+    root'.apps = other.apps.merge self.apps ∧
+    root'.classes = other.classes.merge self.classes ∧
+    root'.loc = other.loc := by
+  unfold mergeInto at h
+  cases hp : other.params.merge self.params with
+  | error e => simp [hp] at h
+  | ok p =>
+    simp only [hp, Except.ok.injEq] at h
+    subst h
+    exact ⟨rfl, rfl, rfl, rfl⟩
+
+/-- The parameters after `mergeSeq` are the left fold of `Mapping.merge`. -/
+theorem mergeSeq_params {root root' : NodeM} {ns : List NodeM} (h : mergeSeq root ns = .ok root') :
+    mergeParamsSeq root.params (ns.map (·.params)) = .ok root'.params := by
+  induction ns generalizing root with
+  | nil => simp only [mergeSeq, Except.ok.injEq] at h; subst h; simp [mergeParamsSeq]
+  | cons x xs ih =>
+    simp only [mergeSeq] at h
+    cases hm : mergeInto x root with
+    | error e => simp [hm] at h
+    | ok r1 =>
+      simp only [hm] at h
+      simp only [List.map_cons, mergeParamsSeq, (mergeInto_ok hm).1]
+      exact ih h
+
+/-- The class list after `mergeSeq` is the left fold of `UList.merge`. -/
+theorem mergeSeq_classes {root root' : NodeM} {ns : List NodeM} (h : mergeSeq root ns = .ok root') :
+    root'.classes = ns.foldl (fun acc n => acc.merge n.classes) root.classes := by
+  induction ns generalizing root with
+  | nil => simp only [mergeSeq, Except.ok.injEq] at h; subst h; rfl
+  | cons x xs ih =>
+    simp only [mergeSeq] at h
+    cases hm : mergeInto x root with
+    | error e => simp [hm] at h
+    | ok r1 =>
+      simp only [hm] at h
+      rw [List.foldl_cons, ← (mergeInto_ok hm).2.2.1]
+      exact ih h
+
+/-- The application list after `mergeSeq` is the left fold of `RList.merge`. -/
+theorem mergeSeq_apps {root root' : NodeM} {ns : List NodeM} (h : mergeSeq root ns = .ok root') :
+    root'.apps = ns.foldl (fun acc n => acc.merge n.apps) root.apps := by
+  induction ns generalizing root with
+  | nil => simp only [mergeSeq, Except.ok.injEq] at h; subst h; rfl
+  | cons x xs ih =>
+    simp only [mergeSeq] at h
+    cases hm : mergeInto x root with
+    | error e => simp [hm] at h
+    | ok r1 =>
+      simp only [hm] at h
+      rw [List.foldl_cons, ← (mergeInto_ok hm).2.1]
+      exact ih h
+
+/-! ## Plain names -/
+
+theorem absClassName_of_not_dot (loc : Option (List Str)) {cls : Str} (h : cls.head? ≠ some '.') :
+    absClassName loc cls = cls := by
+  unfold absClassName
+  split
+  · simp at h
+  · rfl
+
+theorem resolveClassName_of_no_marker (fuel : Nat) (params : Mapping) {cls : Str}
+    (h : strContains cls Extracted.classRefMarker.toList = false) :
+    resolveClassName fuel params cls = .ok cls := by
+  unfold resolveClassName
+  simp [h]
+
+theorem readClass_of_not_dot (r : Inv) (loc : Option (List Str)) {c : Str} (h : c.head? ≠ some '.') :
+    readClass r loc c = readClass r none c := by
+  unfold readClass
+  rw [absClassName_of_not_dot loc h, absClassName_of_not_dot none h]
+
+/-! ## Refinement to the abstract depth-first traversal -/
+
+theorem Walk.dfs {r : Inv} (hr : PlainInv r) {loc : Option (List Str)} {l seen : List Str} {root : NodeM}
+    {seen' : List Str} {root' : NodeM} {tr : List TraceEntry}
+    (h : Walk r loc l seen root seen' root' tr) (hl : ∀ cls ∈ l, PlainName cls) :
+    Dfs (graphOf r) l seen seen' (tr.map Prod.fst) := by
+  induction h with
+  | nil => exact Dfs.nil _
+  | @seen loc cls rest seen root c seen' root' tr h1 hs _ ih =>
+    have hp := hl cls (List.mem_cons_self ..)
+    rw [resolveClassName_of_no_marker _ _ hp.1] at h1
+    cases h1
+    exact Dfs.visited hs (ih fun x hx => hl x (List.mem_cons_of_mem _ hx))
+  | @ignored loc cls rest seen root c seen' root' tr h1 hs h2 _ ih =>
+    have hp := hl cls (List.mem_cons_self ..)
+    rw [resolveClassName_of_no_marker _ _ hp.1] at h1
+    cases h1
+    refine Dfs.skip hs ?_ (ih fun x hx => hl x (List.mem_cons_of_mem _ hx))
+    rw [readClass_of_not_dot r loc hp.2] at h2
+    simp [graphOf, h2]
+  | @load loc cls rest seen root c cn seen1 root1 tr1 root2 seen' root' tr2 h1 hs h2 _ _ _ ih1 ih2 =>
+    have hp := hl cls (List.mem_cons_self ..)
+    rw [resolveClassName_of_no_marker _ _ hp.1] at h1
+    cases h1
+    have hcn := hr loc cls cn h2
+    rw [readClass_of_not_dot r loc hp.2] at h2
+    simp only [List.map_append, List.map_cons]
+    refine Dfs.visit hs ?_ (ih1 hcn) (ih2 fun x hx => hl x (List.mem_cons_of_mem _ hx))
+    simp [graphOf, h2]
+
+/-- `Dfs` is deterministic. -/
+theorem Dfs.det {g : Str → Option (List Str)} {l vis v1 p1 v2 p2 : List Str}
+    (h1 : Dfs g l vis v1 p1) (h2 : Dfs g l vis v2 p2) : v1 = v2 ∧ p1 = p2 := by
+  induction h1 generalizing v2 p2 with
+  | nil => cases h2; exact ⟨rfl, rfl⟩
+  | visited hs _ ih =>
+    cases h2 with
+    | visited _ h => exact ih h
+    | skip hn _ _ => exact absurd hs hn
+    | visit hn _ _ _ => exact absurd hs hn
+  | skip hn hg _ ih =>
+    cases h2 with
+    | visited hs _ => exact absurd hs hn
+    | skip _ _ h => exact ih h
+    | visit _ hg' _ _ => rw [hg] at hg'; cases hg'
+  | visit hn hg _ _ ih1 ih2 =>
+    cases h2 with
+    | visited hs _ => exact absurd hs hn
+    | skip _ hg' _ => rw [hg] at hg'; cases hg'
+    | visit _ hg' ha hb =>
+      rw [hg] at hg'; cases hg'
+      obtain ⟨rfl, rfl⟩ := ih1 ha
+      obtain ⟨rfl, rfl⟩ := ih2 hb
+      exact ⟨rfl, rfl⟩
+
+/-- The executable traversal is sound for `Dfs`. -/
+theorem dfs_sound {g : Str → Option (List Str)} : ∀ (n : Nat) (l vis v po : List Str),
+    dfs n g l vis = some (v, po) → Dfs g l vis v po := by
+  intro n
+  induction n with
+  | zero => intro l vis v po h; simp [dfs] at h
+  | succ n ih =>
+    intro l vis v po h
+    cases l with
+    | nil => simp only [dfs, Option.some.injEq, Prod.mk.injEq] at h; obtain ⟨rfl, rfl⟩ := h; exact Dfs.nil _
+    | cons c rest =>
+      simp only [dfs] at h
+      by_cases hs : c ∈ vis
+      · simp only [hs, if_true] at h; exact Dfs.visited hs (ih _ _ _ _ h)
+      · simp only [hs, if_false] at h
+        cases hg : g c with
+        | none => simp only [hg] at h; exact Dfs.skip hs hg (ih _ _ _ _ h)
+        | some incs =>
+          simp only [hg] at h
+          cases h3 : dfs n g incs (vis ++ [c]) with
+          | none => simp [h3] at h
+          | some x =>
+            obtain ⟨v1, p1⟩ := x
+            simp only [h3] at h
+            cases h4 : dfs n g rest v1 with
+            | none => simp [h4] at h
+            | some y =>
+              obtain ⟨v2, p2⟩ := y
+              simp only [h4, Option.some.injEq, Prod.mk.injEq] at h
+              obtain ⟨rfl, rfl⟩ := h
+              exact Dfs.visit hs hg (ih _ _ _ _ h3) (ih _ _ _ _ h4)
+
+/-! ## Nothing but the walk itself reports `fuel` -/
+
+mutual
+theorem ofYaml_nofuel : ∀ y : Yaml, Value.ofYaml y ≠ .error .fuel
+  | .null => by simp [Value.ofYaml]
+  | .bool _ => by simp [Value.ofYaml]
+  | .num _ => by simp [Value.ofYaml]
+  | .str _ => by simp [Value.ofYaml]
+  | .seq l => by
+    simp only [Value.ofYaml]
+    have := ofYamlL_nofuel l
+    cases h : ofYamlL l with
+    | error e => simp only [h] at this ⊢; simpa using this
+    | ok x => simp
+  | .map es => by
+    simp only [Value.ofYaml]
+    have := ofYamlEs_nofuel es {}
+    cases h : ofYamlEs es {} with
+    | error e => simp only [h] at this ⊢; simpa using this
+    | ok x => simp
+  | .tagged _ _ => by simp [Value.ofYaml]
+theorem ofYamlL_nofuel : ∀ l : List Yaml, ofYamlL l ≠ .error .fuel
+  | [] => by simp [ofYamlL]
+  | y :: ys => by
+    simp only [ofYamlL]
+    have h1 := ofYaml_nofuel y
+    have h2 := ofYamlL_nofuel ys
+    cases h : Value.ofYaml y with
+    | error e => simp only [h] at h1 ⊢; simpa using h1
+    | ok v =>
+      simp only []
+      cases h' : ofYamlL ys with
+      | error e => simp only [h'] at h2 ⊢; exact h2
+      | ok vs => simp
+theorem ofYamlEs_nofuel : ∀ (es : List (Yaml × Yaml)) (m : Mapping), ofYamlEs es m ≠ .error .fuel
+  | [], m => by simp [ofYamlEs]
+  | (k, v) :: rest, m => by
+    simp only [ofYamlEs]
+    cases hk : Key.ofYaml k with
+    | error e =>
+      simp only []
+      cases k <;> simp [Key.ofYaml] at hk <;> subst hk <;> simp
+    | ok k' =>
+      simp only []
+      have h1 := ofYaml_nofuel v
+      cases h : Value.ofYaml v with
+      | error e => simp only [h] at h1 ⊢; simpa using h1
+      | ok v' =>
+        simp only []
+        cases hi : m.insert k' v' with
+        | error e => simp
+        | ok m' => simp only []; exact ofYamlEs_nofuel rest m'
+end
+
+
+theorem insertImpl_nofuel (m : Mapping) (k : Key) (v : Value) (a b : Bool) :
+    m.insertImpl k v a b ≠ .error .fuel := by
+  unfold Mapping.insertImpl
+  simp only []
+  split
+  · simp
+  · split <;> simp
+
+theorem mergeEntries_nofuel (ock ook : List Key) : ∀ (es : List (Key × Value)) (m : Mapping),
+    m.mergeEntries ock ook es ≠ .error .fuel
+  | [], m => by simp [Mapping.mergeEntries]
+  | (k, v) :: rest, m => by
+    simp only [Mapping.mergeEntries]
+    have h1 := insertImpl_nofuel m k v (decide (k ∈ ock)) (decide (k ∈ ook))
+    cases h : m.insertImpl k v (decide (k ∈ ock)) (decide (k ∈ ook)) with
+    | error e => simp only [h] at h1 ⊢; simpa using h1
+    | ok m' => simp only []; exact mergeEntries_nofuel ock ook rest m'
+
+theorem merge_nofuel (m o : Mapping) : m.merge o ≠ .error .fuel := mergeEntries_nofuel _ _ _ _
+
+theorem mergeInto_nofuel (self other : NodeM) : mergeInto self other ≠ .error .fuel := by
+  unfold mergeInto
+  have h1 := merge_nofuel other.params self.params
+  cases h : other.params.merge self.params with
+  | error e => simp only [h] at h1 ⊢; simpa using h1
+  | ok p => simp
+
+
+/-! ## Termination: an explicit fuel bound -/
+
+
+
+theorem ofSrc_nofuel (loc : Option (List Str)) (src : ClassSrc) : NodeM.ofSrc loc src ≠ .error .fuel := by
+  unfold NodeM.ofSrc
+  simp only []
+  have h1 := ofYamlEs_nofuel src.params {}
+  unfold Mapping.ofYamlEntries
+  cases h : ofYamlEs src.params {} with
+  | error e => simp only [h] at h1 ⊢; simpa using h1
+  | ok p => simp
+
+theorem readClass_nofuel (r : Inv) (loc : Option (List Str)) (c : Str) : readClass r loc c ≠ .error .fuel := by
+  unfold readClass
+  simp only []
+  split
+  · split <;> simp
+  · simp
+  · rename_i info src _
+    have h1 := ofSrc_nofuel (some info.loc) src
+    cases h : NodeM.ofSrc (some info.loc) src with
+    | error e => simp only [h] at h1 ⊢; simpa using h1
+    | ok n => simp
+
+/-! ### the counting measure -/
+
+theorem unseen_le_length (U seen : List Str) : unseen U seen ≤ U.length := List.length_filter_le _ _
+
+theorem unseen_mono (U : List Str) {seen seen' : List Str} (h : seen ⊆ seen') :
+    unseen U seen' ≤ unseen U seen := by
+  unfold unseen
+  induction U with
+  | nil => simp
+  | cons u us ih =>
+    simp only [List.filter_cons]
+    by_cases h1 : u ∈ seen
+    · have h2 : u ∈ seen' := h h1
+      simpa [h1, h2] using ih
+    · by_cases h2 : u ∈ seen'
+      · simp only [h1, h2, not_false_eq_true, decide_true, not_true_eq_false, decide_false, if_true,
+          Bool.false_eq_true, if_false, List.length_cons]
+        omega
+      · simpa [h1, h2] using ih
+
+theorem unseen_lt' (U : List Str) {seen seen2 : List Str} {c : Str} (hsub : seen ⊆ seen2)
+    (hU : c ∈ U) (hs : c ∉ seen) (hc : c ∈ seen2) :
+    unseen U seen2 < unseen U seen := by
+  induction U with
+  | nil => simp at hU
+  | cons u us ih =>
+    have hmono : unseen us seen2 ≤ unseen us seen := unseen_mono us hsub
+    unfold unseen at hmono ih ⊢
+    simp only [List.filter_cons]
+    by_cases huc : u = c
+    · subst huc
+      simp only [hs, hc, not_true_eq_false, decide_false,
+        Bool.false_eq_true, if_false, not_false_eq_true, decide_true, if_true, List.length_cons]
+      omega
+    · have hU' : c ∈ us := by
+        rcases List.mem_cons.1 hU with h | h
+        · exact absurd h.symm huc
+        · exact h
+      have := ih hU'
+      by_cases h1 : u ∈ seen
+      · have h2 := hsub h1
+        simpa [h1, h2] using this
+      · by_cases h2 : u ∈ seen2
+        · simp only [h1, h2, not_false_eq_true, decide_true, not_true_eq_false, decide_false, if_true,
+            Bool.false_eq_true, if_false, List.length_cons]
+          omega
+        · simp only [h1, h2, not_false_eq_true, decide_true, if_true, List.length_cons]
+          omega
+
+theorem unseen_lt (U : List Str) {seen : List Str} {c : Str} (hU : c ∈ U) (hs : c ∉ seen) :
+    unseen U (seen ++ [c]) < unseen U seen :=
+  unseen_lt' U (fun x hx => List.mem_append_left _ hx) hU hs (by simp)
+
+
+theorem renderImpl_seen_subset {n : Nat} {r : Inv} {self : NodeM} {seen : List Str} {root : NodeM}
+    {seen' : List Str} {root' : NodeM} (h : renderImpl n r self seen root = .ok (seen', root')) :
+    seen ⊆ seen' := by
+  obtain ⟨tr, ht⟩ := renderImpl_ok_iff.1 h
+  obtain ⟨root1, hw, _⟩ := renderImplT_sound ht
+  exact hw.seen_subset
+
+theorem walk_nofuel_both {r : Inv} {U : List Str} {B : Nat} (hr : GoodInv r U B) : ∀ n : Nat,
+    (∀ self seen root k, GoodNode r U B self → unseen U seen ≤ k → (k+1)*(B+2) ≤ n →
+       renderImpl n r self seen root ≠ .error .fuel) ∧
+    (∀ loc l seen root k, GoodList r U loc l → unseen U seen ≤ k → l.length + 1 + k*(B+2) ≤ n →
+       walkClasses n r loc l seen root ≠ .error .fuel) := by
+  intro n
+  induction n with
+  | zero =>
+    refine ⟨?_, ?_⟩
+    · intro self seen root k _ _ hn
+      rw [Nat.succ_mul] at hn; omega
+    · intro loc l seen root k _ _ hn; omega
+  | succ n ih =>
+    obtain ⟨ihR, ihW⟩ := ih
+    refine ⟨?_, ?_⟩
+    · intro self seen root k hg hk hn
+      rw [Nat.succ_mul] at hn
+      rw [renderImpl_succ]
+      have hw := ihW self.loc self.classes.items seen root k hg.2 hk (by have := hg.1; omega)
+      cases h1 : walkClasses n r self.loc self.classes.items seen root with
+      | error e => simp only [h1] at hw ⊢; simpa using hw
+      | ok x =>
+        obtain ⟨s1, r1⟩ := x
+        simp only []
+        have hm := mergeInto_nofuel self r1
+        cases h2 : mergeInto self r1 with
+        | error e => simp only [h2] at hm ⊢; simpa using hm
+        | ok r2 => simp
+    · intro loc l seen root k hl hk hn
+      cases l with
+      | nil => simp [walkClasses_nil]
+      | cons cls rest =>
+        rw [walkClasses_cons]
+        simp only [List.length_cons] at hn
+        obtain ⟨hnf, hin⟩ := hl cls (List.mem_cons_self ..)
+        have hl' : GoodList r U loc rest := fun x hx => hl x (List.mem_cons_of_mem _ hx)
+        cases h1 : resolveClassName defaultFuel root.params cls with
+        | error e =>
+          have := hnf root.params
+          simp only [h1] at this ⊢; simpa using this
+        | ok c =>
+          simp only []
+          by_cases hs : c ∈ seen
+          · simp only [hs, if_true]
+            exact ihW loc rest seen root k hl' hk (by omega)
+          · simp only [hs, if_false]
+            have hrc := readClass_nofuel r loc c
+            cases h2 : readClass r loc c with
+            | error e => simp only [h2] at hrc ⊢; simpa using hrc
+            | ok o =>
+              cases o with
+              | none =>
+                simp only []
+                exact ihW loc rest seen root k hl' hk (by omega)
+              | some cn =>
+                simp only []
+                have hcU := hin _ _ _ h1 h2
+                have hlt := unseen_lt U hcU hs
+                cases k with
+                | zero => omega
+                | succ k' =>
+                  rw [Nat.succ_mul] at hn
+                  have hR := ihR cn (seen ++ [c]) root k' (hr loc c cn h2) (by omega)
+                    (by rw [Nat.succ_mul]; omega)
+                  cases h3 : renderImpl n r cn (seen ++ [c]) root with
+                  | error e => simp only [h3] at hR ⊢; simpa using hR
+                  | ok x =>
+                    obtain ⟨s1, r1⟩ := x
+                    simp only []
+                    have hsub : seen ⊆ s1 := fun x hx =>
+                      renderImpl_seen_subset h3 (List.mem_append_left _ hx)
+                    have hk1 : unseen U s1 ≤ k' + 1 := Nat.le_trans (unseen_mono U hsub) hk
+                    exact ihW loc rest s1 r1 (k'+1) hl' hk1 (by rw [Nat.succ_mul]; omega)
+
+/-- **Termination bound.** -/
+theorem renderImpl_nofuel {r : Inv} {U : List Str} {B : Nat} (hr : GoodInv r U B)
+    {self : NodeM} (hs : GoodNode r U B self) (seen : List Str) (root : NodeM) {n : Nat}
+    (hn : (U.length + 1) * (B + 2) ≤ n) :
+    renderImpl n r self seen root ≠ .error .fuel :=
+  (walk_nofuel_both hr n).1 self seen root U.length hs (unseen_le_length U seen) hn
+
+
+/-! ## The bound for plain inventories: universe = class names, `B` = longest include list -/
+
+theorem findEntity_some_mem {name : Str} {l : List (Str × EntityInfo × FileRes)} {e : EntityInfo × FileRes}
+    (h : findEntity name l = some e) : (name, e) ∈ l := by
+  induction l with
+  | nil => simp [findEntity] at h
+  | cons x xs ih =>
+    obtain ⟨n, e'⟩ := x
+    simp only [findEntity] at h
+    by_cases hn : n = name
+    · simp only [hn, if_true, Option.some.injEq] at h; subst h; subst hn; exact List.mem_cons_self ..
+    · simp only [hn, if_false] at h; exact List.mem_cons_of_mem _ (ih h)
+
+theorem readClass_some {r : Inv} {loc : Option (List Str)} {c : Str} {cn : NodeM}
+    (h : readClass r loc c = .ok (some cn)) :
+    ∃ info src, findEntity (absClassName loc c) r.classes = some (info, .ok src) ∧
+      NodeM.ofSrc (some info.loc) src = .ok cn := by
+  unfold readClass at h
+  simp only [] at h
+  split at h
+  · split at h <;> simp at h
+  · simp at h
+  · rename_i info src heq
+    refine ⟨info, src, heq, ?_⟩
+    cases h2 : NodeM.ofSrc (some info.loc) src with
+    | error e => simp [h2] at h
+    | ok n => simp only [h2, Except.ok.injEq, Option.some.injEq] at h; rw [h]
+
+theorem appendIfNew_length (l : UList) (x : Str) : (l.appendIfNew x).items.length ≤ l.items.length + 1 := by
+  unfold UList.appendIfNew
+  split <;> simp
+
+theorem foldl_appendIfNew_length (f : Str → Str) (xs : List Str) (acc : UList) :
+    (xs.foldl (fun a c => a.appendIfNew (f c)) acc).items.length ≤ acc.items.length + xs.length := by
+  induction xs generalizing acc with
+  | nil => simp
+  | cons x xs ih =>
+    simp only [List.foldl_cons, List.length_cons]
+    have := ih (acc.appendIfNew (f x))
+    have := appendIfNew_length acc (f x)
+    omega
+
+theorem ofList_length (xs : List Str) : (UList.ofList xs).items.length ≤ xs.length := by
+  have := foldl_appendIfNew_length id xs {}
+  simpa [UList.ofList] using this
+
+theorem ofSrc_classes_length {loc : Option (List Str)} {src : ClassSrc} {cn : NodeM}
+    (h : NodeM.ofSrc loc src = .ok cn) : cn.classes.items.length ≤ src.classes.length := by
+  unfold NodeM.ofSrc at h
+  simp only [] at h
+  cases hp : Mapping.ofYamlEntries src.params with
+  | error e => simp [hp] at h
+  | ok p =>
+    simp only [hp, Except.ok.injEq] at h
+    subst h
+    simp only []
+    have h1 := foldl_appendIfNew_length (absClassName loc) (UList.ofList src.classes).items {}
+    have h2 := ofList_length src.classes
+    simp only [show ({} : UList).items.length = 0 from rfl] at h1
+    omega
+
+theorem foldl_max_ge_init (f : (Str × EntityInfo × FileRes) → Nat) (l : List (Str × EntityInfo × FileRes)) (m : Nat) :
+    m ≤ l.foldl (fun m e => max m (f e)) m := by
+  induction l generalizing m with
+  | nil => simp
+  | cons x xs ih => exact Nat.le_trans (Nat.le_max_left _ _) (ih _)
+
+theorem foldl_max_ge_mem (f : (Str × EntityInfo × FileRes) → Nat) (l : List (Str × EntityInfo × FileRes)) (m : Nat)
+    {x : Str × EntityInfo × FileRes} (hx : x ∈ l) : f x ≤ l.foldl (fun m e => max m (f e)) m := by
+  induction l generalizing m with
+  | nil => simp at hx
+  | cons y ys ih =>
+    rcases List.mem_cons.1 hx with h | h
+    · subst h; exact Nat.le_trans (Nat.le_max_right _ _) (foldl_max_ge_init f ys _)
+    · exact ih _ h
+
+theorem readClass_length_le_maxIncludes {r : Inv} {loc : Option (List Str)} {c : Str} {cn : NodeM}
+    (h : readClass r loc c = .ok (some cn)) : cn.classes.items.length ≤ maxIncludes r := by
+  obtain ⟨info, src, hf, ho⟩ := readClass_some h
+  have hm := findEntity_some_mem hf
+  have := foldl_max_ge_mem (fun e => match e.2.2 with | .ok src => src.classes.length | .bad _ => 0) r.classes 0 hm
+  simp only [] at this
+  exact Nat.le_trans (ofSrc_classes_length ho) this
+
+theorem plain_goodList (r : Inv) (loc : Option (List Str)) {l : List Str} (hl : ∀ cls ∈ l, PlainName cls) :
+    GoodList r (r.classes.map (·.1)) loc l := by
+  intro cls hcls
+  obtain ⟨hm, hd⟩ := hl cls hcls
+  refine ⟨?_, ?_⟩
+  · intro params; rw [resolveClassName_of_no_marker _ _ hm]; simp
+  · intro params c cn h1 h2
+    rw [resolveClassName_of_no_marker _ _ hm] at h1
+    cases h1
+    obtain ⟨info, src, hf, _⟩ := readClass_some h2
+    rw [absClassName_of_not_dot loc hd] at hf
+    exact List.mem_map.2 ⟨_, findEntity_some_mem hf, rfl⟩
+
+theorem plain_goodInv {r : Inv} (hr : PlainInv r) {B : Nat} (hB : maxIncludes r ≤ B) :
+    GoodInv r (r.classes.map (·.1)) B := by
+  intro loc c cn h
+  exact ⟨Nat.le_trans (readClass_length_le_maxIncludes h) hB, plain_goodList r cn.loc (hr loc c cn h)⟩
+
+
+/-! ## Skipped entries -/
+
+/-- An entry that resolves to an already-seen name, or to a missing and ignored class, is
+skipped: neither `seen` nor `root` change. -/
+theorem walkClassesT_skip {n : Nat} {r : Inv} {loc : Option (List Str)} {cls c : Str} {rest seen : List Str}
+    {root : NodeM} (h1 : resolveClassName defaultFuel root.params cls = .ok c)
+    (h2 : c ∈ seen ∨ readClass r loc c = .ok none) :
+    walkClassesT (n+1) r loc (cls :: rest) seen root = walkClassesT n r loc rest seen root := by
+  rw [walkClassesT_cons]
+  simp only [h1]
+  by_cases hs : c ∈ seen
+  · simp [hs]
+  · rcases h2 with h2 | h2
+    · exact absurd h2 hs
+    · simp [hs, h2]
+
+theorem walkClasses_skip {n : Nat} {r : Inv} {loc : Option (List Str)} {cls c : Str} {rest seen : List Str}
+    {root : NodeM} (h1 : resolveClassName defaultFuel root.params cls = .ok c)
+    (h2 : c ∈ seen ∨ readClass r loc c = .ok none) :
+    walkClasses (n+1) r loc (cls :: rest) seen root = walkClasses n r loc rest seen root := by
+  rw [← walkClassesT_erase, ← walkClassesT_erase, walkClassesT_skip h1 h2]
+
+/-- An entry that is skipped in every state (e.g. a reference-free name of a missing, ignored
+class) can be inserted anywhere in an include list without changing the walk. -/
+theorem walkClassesT_insert_skipped {r : Inv} {loc : Option (List Str)} {cls c : Str}
+    (h1 : ∀ params, resolveClassName defaultFuel params cls = .ok c)
+    (h2 : readClass r loc c = .ok none) (rest : List Str) :
+    ∀ (pre : List Str) (n : Nat) (seen : List Str) (root : NodeM) (res : R (List Str × NodeM × List TraceEntry)),
+      walkClassesT n r loc (pre ++ rest) seen root = res → res ≠ .error .fuel →
+      walkClassesT (n+1) r loc (pre ++ cls :: rest) seen root = res := by
+  intro pre
+  induction pre with
+  | nil =>
+    intro n seen root res h _
+    simp only [List.nil_append] at h ⊢
+    rw [walkClassesT_skip (h1 _) (Or.inr h2)]; exact h
+  | cons p pre ih =>
+    intro n seen root res h hne
+    cases n with
+    | zero => rw [walkClassesT_zero] at h; exact absurd h.symm hne
+    | succ m =>
+      simp only [List.cons_append] at h ⊢
+      rw [walkClassesT_cons] at h ⊢
+      cases e1 : resolveClassName defaultFuel root.params p with
+      | error e => simp only [e1] at h ⊢; exact h
+      | ok d =>
+        simp only [e1] at h ⊢
+        by_cases hs : d ∈ seen
+        · simp only [hs, if_true] at h ⊢; exact ih _ _ _ _ h hne
+        · simp only [hs, if_false] at h ⊢
+          cases e2 : readClass r loc d with
+          | error e => simp only [e2] at h ⊢; exact h
+          | ok o =>
+            cases o with
+            | none => simp only [e2] at h ⊢; exact ih _ _ _ _ h hne
+            | some cn =>
+              simp only [e2] at h ⊢
+              cases e3 : renderImplT m r cn (seen ++ [d]) root with
+              | error e =>
+                simp only [e3] at h
+                have : e ≠ .fuel := by intro he; subst he; exact hne h.symm
+                rw [renderImplT_mono_le (Nat.le_succ m) e3 (by simpa using this)]
+                exact h
+              | ok x =>
+                obtain ⟨s1, r1, t1⟩ := x
+                rw [renderImplT_mono_le (Nat.le_succ m) e3 (by simp)]
+                simp only [e3] at h ⊢
+                cases e4 : walkClassesT m r loc (pre ++ rest) s1 r1 with
+                | error e =>
+                  simp only [e4] at h
+                  have : e ≠ .fuel := by intro he; subst he; exact hne h.symm
+                  rw [ih _ _ _ _ e4 (by simpa using this)]
+                  exact h
+                | ok y =>
+                  rw [ih _ _ _ _ e4 (by simp)]
+                  simp only [e4] at h
+                  exact h
+
+theorem walkClasses_insert_skipped {r : Inv} {loc : Option (List Str)} {cls c : Str}
+    (h1 : ∀ params, resolveClassName defaultFuel params cls = .ok c)
+    (h2 : readClass r loc c = .ok none) (pre rest : List Str) {n : Nat} {seen : List Str} {root : NodeM}
+    {res : R (List Str × NodeM)}
+    (h : walkClasses n r loc (pre ++ rest) seen root = res) (hne : res ≠ .error .fuel) :
+    walkClasses (n+1) r loc (pre ++ cls :: rest) seen root = res := by
+  rw [← walkClassesT_erase] at h ⊢
+  have hne' : walkClassesT n r loc (pre ++ rest) seen root ≠ .error .fuel := by
+    intro hc; rw [hc] at h; exact hne (by rw [← h]; rfl)
+  rw [walkClassesT_insert_skipped h1 h2 rest pre n seen root _ rfl hne']; exact h
+
+/-! ## `UList.merge` membership -/
+
+theorem UList.mem_appendIfNew {l : UList} {x y : Str} :
+    y ∈ (l.appendIfNew x).items ↔ y ∈ l.items ∨ y = x := by
+  unfold UList.appendIfNew
+  split
+  · rename_i h
+    constructor
+    · exact Or.inl
+    · rintro (h' | h')
+      · exact h'
+      · subst h'; exact h
+  · simp
+
+theorem UList.mem_merge {l o : UList} {y : Str} :
+    y ∈ (l.merge o).items ↔ y ∈ l.items ∨ y ∈ o.items := by
+  unfold UList.merge
+  generalize o.items = xs
+  induction xs generalizing l with
+  | nil => simp
+  | cons x xs ih =>
+    simp only [List.foldl_cons, ih, UList.mem_appendIfNew, List.mem_cons]
+    constructor
+    · rintro ((h | h) | h)
+      · exact Or.inl h
+      · exact Or.inr (Or.inl h)
+      · exact Or.inr (Or.inr h)
+    · rintro (h | h | h)
+      · exact Or.inl (Or.inl h)
+      · exact Or.inl (Or.inr h)
+      · exact Or.inr h
+
+
+
+
+/-! ## Error propagation -/
+
+theorem readClass_missing {r : Inv} {loc : Option (List Str)} {c : Str}
+    (hf : findEntity (absClassName loc c) r.classes = none) :
+    readClass r loc c =
+      if r.cfg.isClassIgnored (absClassName loc c) then .ok none
+      else .error (.classNotFound (absClassName loc c)) := by
+  unfold readClass
+  simp only [hf]
+
+/-- An error of the include walk is the error of `renderImpl`. -/
+theorem renderImpl_error_of_walk {n : Nat} {r : Inv} {self : NodeM} {seen : List Str} {root : NodeM} {e : Err}
+    (h : walkClasses n r self.loc self.classes.items seen root = .error e) :
+    renderImpl (n+1) r self seen root = .error e := by
+  rw [renderImpl_succ, h]
+
+/-- An error while reading the class an entry resolves to is the error of the walk. -/
+theorem walkClasses_error_of_read {n : Nat} {r : Inv} {loc : Option (List Str)} {cls c : Str}
+    {rest seen : List Str} {root : NodeM} {e : Err}
+    (h1 : resolveClassName defaultFuel root.params cls = .ok c) (hs : c ∉ seen)
+    (h2 : readClass r loc c = .error e) :
+    walkClasses (n+1) r loc (cls :: rest) seen root = .error e := by
+  rw [walkClasses_cons]; simp only [h1, hs, if_false, h2]
+
+/-- An error inside an included class is the error of the including walk. -/
+theorem walkClasses_error_of_render {n : Nat} {r : Inv} {loc : Option (List Str)} {cls c : Str}
+    {rest seen : List Str} {root : NodeM} {cn : NodeM} {e : Err}
+    (h1 : resolveClassName defaultFuel root.params cls = .ok c) (hs : c ∉ seen)
+    (h2 : readClass r loc c = .ok (some cn))
+    (h3 : renderImpl n r cn (seen ++ [c]) root = .error e) :
+    walkClasses (n+1) r loc (cls :: rest) seen root = .error e := by
+  rw [walkClasses_cons]; simp only [h1, hs, if_false, h2, h3]
+
+/-- An error in the entries after a successfully walked prefix is the error of the whole walk
+(for some, hence every larger, amount of fuel). -/
+theorem Walk.prefix_error {r : Inv} {loc : Option (List Str)} {pre seen : List Str} {root : NodeM}
+    {seen1 : List Str} {root1 : NodeM} {tr : List TraceEntry}
+    (h : Walk r loc pre seen root seen1 root1 tr) {n : Nat} {l2 : List Str} {e : Err}
+    (he : walkClasses n r loc l2 seen1 root1 = .error e) (hne : e ≠ .fuel) :
+    ∃ m, ∀ m', m ≤ m' → walkClasses m' r loc (pre ++ l2) seen root = .error e := by
+  suffices ∃ m, walkClasses m r loc (pre ++ l2) seen root = .error e by
+    obtain ⟨m, hm⟩ := this
+    exact ⟨m, fun m' hle => walkClasses_mono_le hle hm (by simpa using hne)⟩
+  induction h with
+  | nil => exact ⟨n, he⟩
+  | seen h1 hs _ ih =>
+    obtain ⟨m, hm⟩ := ih he
+    exact ⟨m+1, by rw [List.cons_append, walkClasses_skip h1 (Or.inl hs)]; exact hm⟩
+  | ignored h1 hs h2 _ ih =>
+    obtain ⟨m, hm⟩ := ih he
+    exact ⟨m+1, by rw [List.cons_append, walkClasses_skip h1 (Or.inr h2)]; exact hm⟩
+  | @load loc cls rest seen root c cn s1 r1 t1 r2 s' r' t2 h1 hs h2 hw hm _ _ ih2 =>
+    obtain ⟨m2, hm2⟩ := ih2 he
+    obtain ⟨m1, hm1⟩ := hw.complete
+    have hr : renderImpl (m1+1) r cn (seen ++ [c]) root = .ok (s1, r2) := by
+      rw [renderImpl_succ, walkClasses_ok_iff.2 ⟨_, hm1⟩]; simp only [hm]
+    refine ⟨max (m1+1) m2 + 1, ?_⟩
+    rw [List.cons_append, walkClasses_cons]
+    simp only [h1, hs, if_false, h2]
+    rw [renderImpl_mono_le (Nat.le_max_left _ _) hr (by simp)]
+    simp only []
+    exact walkClasses_mono_le (Nat.le_max_right _ _) hm2 (by simpa using hne)
+
+/-- Likewise for success: walks compose along `++`. -/
+theorem Walk.append {r : Inv} {loc : Option (List Str)} {l1 seen : List Str} {root : NodeM}
+    {seen1 : List Str} {root1 : NodeM} {tr1 : List TraceEntry}
+    (h : Walk r loc l1 seen root seen1 root1 tr1) {l2 seen2 : List Str} {root2 : NodeM} {tr2 : List TraceEntry}
+    (h' : Walk r loc l2 seen1 root1 seen2 root2 tr2) :
+    Walk r loc (l1 ++ l2) seen root seen2 root2 (tr1 ++ tr2) := by
+  induction h with
+  | nil => exact h'
+  | seen h1 hs _ ih => exact Walk.seen h1 hs (ih h')
+  | ignored h1 hs h2 _ ih => exact Walk.ignored h1 hs h2 (ih h')
+  | load h1 hs h2 hw hm _ _ ih2 =>
+    have := Walk.load h1 hs h2 hw hm (ih2 h')
+    simpa [List.append_assoc] using this
+
+/-- An error of the walk of the base node is the error of `renderNodeSrc`. -/
+theorem renderNodeSrc_error_of_walk {fuel : Nat} {r : Inv} {nmeta : MetaM} {src : ClassSrc}
+    {self : NodeM} {rc bp : Mapping} {e : Err}
+    (h1 : NodeM.ofSrc none src = .ok self) (h2 : nmeta.asReclass r.cfg = .ok rc)
+    (h3 : ({} : Mapping).insert (.str Extracted.reclassKey.toList) rc.toValue = .ok bp)
+    (h4 : renderImpl fuel r { classes := self.classes, params := bp } [] {} = .error e) :
+    renderNodeSrc fuel r nmeta src = .error e := by
+  unfold renderNodeSrc
+  simp only [h1, h2, h3, h4]
+
+
+
+
+/-! ## `renderNodeSrc` unpacked -/
+
+theorem mergeInto_eq {self other : NodeM} {p : Mapping} (h : other.params.merge self.params = .ok p) :
+    mergeInto self other =
+      .ok { other with apps := other.apps.merge self.apps, classes := other.classes.merge self.classes, params := p } := by
+  unfold mergeInto; simp only [h]
+
+theorem renderNodeSrc_ok {fuel : Nat} {r : Inv} {nmeta : MetaM} {src : ClassSrc} {info : NodeInfoM}
+    (h : renderNodeSrc fuel r nmeta src = .ok info) :
+    ∃ self rc bp seen root fin,
+      NodeM.ofSrc none src = .ok self ∧ nmeta.asReclass r.cfg = .ok rc ∧
+      ({} : Mapping).insert (.str Extracted.reclassKey.toList) rc.toValue = .ok bp ∧
+      renderImpl fuel r { classes := self.classes, params := bp } [] {} = .ok (seen, root) ∧
+      mergeInto self root = .ok fin ∧
+      renderParamsF defaultFuel fin.params = .ok info.params ∧
+      info.apps = fin.apps.items ∧ info.classes = fin.classes.items ∧ info.nmeta = nmeta := by
+  unfold renderNodeSrc at h
+  cases h1 : NodeM.ofSrc none src with
+  | error e => simp [h1] at h
+  | ok self =>
+    simp only [h1] at h
+    cases h2 : nmeta.asReclass r.cfg with
+    | error e => simp [h2] at h
+    | ok rc =>
+      simp only [h2] at h
+      cases h3 : ({} : Mapping).insert (.str Extracted.reclassKey.toList) rc.toValue with
+      | error e => simp [h3] at h
+      | ok bp =>
+        simp only [h3] at h
+        cases h4 : renderImpl fuel r { classes := self.classes, params := bp } [] {} with
+        | error e => simp [h4] at h
+        | ok x =>
+          obtain ⟨seen, root⟩ := x
+          simp only [h4] at h
+          cases h5 : mergeInto self root with
+          | error e => simp [h5] at h
+          | ok fin =>
+            simp only [h5] at h
+            cases h6 : renderParamsF defaultFuel fin.params with
+            | error e => simp [h6] at h
+            | ok p =>
+              simp only [h6, Except.ok.injEq] at h
+              subst h
+              exact ⟨self, rc, bp, seen, root, fin, rfl, rfl, h3, h4, h5, h6, rfl, rfl, rfl⟩
+
+theorem renderNodeSrc_of_parts {fuel : Nat} {r : Inv} {nmeta : MetaM} {src : ClassSrc}
+    {self : NodeM} {rc bp : Mapping} {seen : List Str} {root fin : NodeM} {p : Mapping}
+    (h1 : NodeM.ofSrc none src = .ok self) (h2 : nmeta.asReclass r.cfg = .ok rc)
+    (h3 : ({} : Mapping).insert (.str Extracted.reclassKey.toList) rc.toValue = .ok bp)
+    (h4 : renderImpl fuel r { classes := self.classes, params := bp } [] {} = .ok (seen, root))
+    (h5 : mergeInto self root = .ok fin) (h6 : renderParamsF defaultFuel fin.params = .ok p) :
+    renderNodeSrc fuel r nmeta src =
+      .ok { nmeta := nmeta, apps := fin.apps.items, classes := fin.classes.items, params := p } := by
+  unfold renderNodeSrc
+  simp only [h1, h2, h3, h4, h5, h6]
+
+/-! ## A skipped entry, at the level of `renderImpl` -/
+
+theorem renderImpl_insert_skipped {r : Inv} {self self' : NodeM} {cls c : Str} {pre rest : List Str}
+    (hloc : self.loc = self'.loc) (hp : self.params = self'.params) (ha : self.apps = self'.apps)
+    (hc : self.classes.items = pre ++ cls :: rest) (hc' : self'.classes.items = pre ++ rest)
+    (h1 : ∀ params, resolveClassName defaultFuel params cls = .ok c)
+    (h2 : readClass r self.loc c = .ok none)
+    {n : Nat} {seen : List Str} {root : NodeM} :
+    (∀ e, renderImpl n r self' seen root = .error e → e ≠ .fuel →
+       renderImpl (n+1) r self seen root = .error e) ∧
+    (∀ seen' root', renderImpl n r self' seen root = .ok (seen', root') →
+       ∃ root'', renderImpl (n+1) r self seen root = .ok (seen', root'') ∧
+         root''.params = root'.params ∧ root''.apps = root'.apps ∧ root''.loc = root'.loc ∧
+         ∀ x, x ∈ root''.classes.items ↔ x = cls ∨ x ∈ root'.classes.items) := by
+  cases n with
+  | zero =>
+    refine ⟨?_, ?_⟩
+    · intro e h hne; rw [renderImpl_zero] at h; cases h; exact absurd rfl hne
+    · intro s ro h; rw [renderImpl_zero] at h; cases h
+  | succ m =>
+    refine ⟨?_, ?_⟩
+    · intro e h hne
+      rw [renderImpl_succ] at h
+      rw [renderImpl_succ, hc]
+      rw [hc', ← hloc] at h
+      cases hw : walkClasses m r self.loc (pre ++ rest) seen root with
+      | error e' =>
+        simp only [hw, Except.error.injEq] at h
+        subst h
+        rw [walkClasses_insert_skipped h1 h2 pre rest hw (by simpa using hne)]
+      | ok x =>
+        obtain ⟨s1, r1⟩ := x
+        rw [walkClasses_insert_skipped h1 h2 pre rest hw (by simp)]
+        simp only [hw] at h ⊢
+        unfold mergeInto at h ⊢
+        rw [hp]
+        cases hm : r1.params.merge self'.params with
+        | error e' => simp only [hm, Except.error.injEq] at h ⊢; exact h
+        | ok p => simp [hm] at h
+    · intro s ro h
+      rw [renderImpl_succ] at h
+      rw [renderImpl_succ, hc]
+      rw [hc', ← hloc] at h
+      cases hw : walkClasses m r self.loc (pre ++ rest) seen root with
+      | error e' => simp [hw] at h
+      | ok x =>
+        obtain ⟨s1, r1⟩ := x
+        rw [walkClasses_insert_skipped h1 h2 pre rest hw (by simp)]
+        simp only [hw] at h ⊢
+        cases hm : r1.params.merge self'.params with
+        | error e' => simp [mergeInto, hm] at h
+        | ok p =>
+          rw [mergeInto_eq hm] at h
+          rw [mergeInto_eq (hp ▸ hm)]
+          simp only [Except.ok.injEq, Prod.mk.injEq] at h
+          obtain ⟨rfl, rfl⟩ := h
+          refine ⟨_, rfl, rfl, by rw [ha], rfl, ?_⟩
+          intro x
+          simp only [UList.mem_merge, hc, hc', List.mem_append, List.mem_cons]
+          constructor
+          · rintro (h | h | h | h)
+            · exact Or.inr (Or.inl h)
+            · exact Or.inr (Or.inr (Or.inl h))
+            · exact Or.inl h
+            · exact Or.inr (Or.inr (Or.inr h))
+          · rintro (h | h | h | h)
+            · exact Or.inr (Or.inr (Or.inl h))
+            · exact Or.inl h
+            · exact Or.inr (Or.inl h)
+            · exact Or.inr (Or.inr (Or.inr h))
+
+
+
+
+/-- A skipped entry in the node's own include list, at the level of `renderNodeSrc`. -/
+theorem renderNodeSrc_insert_skipped {r : Inv} {nmeta : MetaM} {src src' : ClassSrc} {self self' : NodeM}
+    {cls c : Str} {pre rest : List Str}
+    (hs : NodeM.ofSrc none src = .ok self) (hs' : NodeM.ofSrc none src' = .ok self')
+    (hp : self.params = self'.params) (ha : self.apps = self'.apps)
+    (hc : self.classes.items = pre ++ cls :: rest) (hc' : self'.classes.items = pre ++ rest)
+    (h1 : ∀ params, resolveClassName defaultFuel params cls = .ok c)
+    (h2 : readClass r none c = .ok none)
+    {fuel : Nat} {info' : NodeInfoM} (h : renderNodeSrc fuel r nmeta src' = .ok info') :
+    ∃ info, renderNodeSrc (fuel+1) r nmeta src = .ok info ∧ info.params = info'.params ∧
+      info.apps = info'.apps ∧ info.nmeta = info'.nmeta ∧
+      ∀ x, x ∈ info.classes ↔ x = cls ∨ x ∈ info'.classes := by
+  obtain ⟨self0, rc, bp, seen, root, fin, e1, e2, e3, e4, e5, e6, e7, e8, e9⟩ := renderNodeSrc_ok h
+  rw [hs'] at e1; cases e1
+  obtain ⟨root2, hr, hpp, haa, hll, hcc⟩ :=
+    (renderImpl_insert_skipped (self := { classes := self.classes, params := bp })
+      (self' := { classes := self'.classes, params := bp }) (cls := cls) (c := c) (pre := pre) (rest := rest)
+      rfl rfl rfl hc hc' h1 h2).2 _ _ e4
+  obtain ⟨m1, m2, m3, m4⟩ := mergeInto_ok e5
+  have hm : root2.params.merge self.params = .ok fin.params := by rw [hpp, hp]; exact m1
+  refine ⟨_, renderNodeSrc_of_parts hs e2 e3 hr (mergeInto_eq hm) e6, rfl, ?_, e9.symm, ?_⟩
+  · simp only [e7, m2, haa, ha]
+  · intro x
+    simp only [e8, m3, UList.mem_merge, hcc, hc, hc', List.mem_append, List.mem_cons]
+    constructor
+    · rintro ((h | h) | h | h | h)
+      · exact Or.inl h
+      · exact Or.inr (Or.inl h)
+      · exact Or.inr (Or.inr (Or.inl h))
+      · exact Or.inl h
+      · exact Or.inr (Or.inr (Or.inr h))
+    · rintro (h | h | h | h)
+      · exact Or.inl (Or.inl h)
+      · exact Or.inl (Or.inr h)
+      · exact Or.inr (Or.inl h)
+      · exact Or.inr (Or.inr (Or.inr h))
+
+
 end Reclass
